@@ -100,6 +100,17 @@ func genMatcher(e *worlds.Env, b *Builder, o *genOpts) MSpec {
 		}
 	}
 	m.Not = e.T.Prob(1, 8, "m-not")
+	if m.Not && e.T.Prob(1, 3, "m-not-and") {
+		// not{ m AND a second stream-reading matcher }: both read the same bytes
+		a := MSpec{ID: b.id("m"), Need: genNeed(e), Mode: e.T.Choose(4, "m-mode"), Kind: VYes}
+		if e.T.Prob(1, 2, "m-and-content") {
+			a.Kind, a.Thr = VContent, e.T.Pick("m-thr", 128, 64, 192, 256)
+			if a.Need == 0 {
+				a.Need = 1
+			}
+		}
+		m.And = &a
+	}
 	return m
 }
 
